@@ -12,7 +12,7 @@ RULE = ('sequential part: every base program up to the length bound over 7 lette
         'threaded part: worker-thread programs under every interleaving up to the preemption bound. Non-trivial = at least one fault placed.')
 ASSUMPTIONS = ['the undecorated twin is the same interpreter with identity decorators', 'in-memory cassette behind a spy',
                'python -O (assert stripping) not considered']
-OWN_EXC = ('E1', 'E2', 'UnserExc', 'Interrupt')
+OWN_EXC = ('E1', 'E2', 'UnserExc', 'Interrupt', 'RecordingKeyError')
 
 
 def bounds(tier):
@@ -25,7 +25,7 @@ def heavy(case):
 
 
 def gen_cases(tier, seed):
-    for c in F.gen(tier, letters='AHOGSNK'):
+    for c in F.gen(tier, letters='AHOGSNKW'):
         yield c
     from mc.checks import c04_threads
     for c in c04_threads.gen_cases(tier, seed):
